@@ -53,6 +53,7 @@ class Check:
         self.exhaustive_rules: set = set()
         self.extra: Dict[str, Any] = {}
         self.explanations: List[str] = []
+        self.analysis_errors: List[str] = []
         self.assumptions: List[str] = []
 
     # -------------------------------------------------------------- recording
@@ -94,7 +95,7 @@ class Check:
         for rule, n in self.floors.items():
             got = self.rule_counts.get(rule, 0)
             if got < n:
-                raise AnalysisError(f"rule {rule} matched {got} instances, floor is {n} (vacuous pass refused)")
+                self.analysis_errors.append(f"rule {rule} matched {got} instances, floor is {n} (vacuous pass refused)")
         known_keys = {k["key"]: k for k in known if k.get("property") == self.prop and k.get("status") == "known"}
         lines: List[str] = []
         new: List[Finding] = []
@@ -153,6 +154,7 @@ class Check:
                 "reported_not_armed": self.reports[:100],
                 "findings": [f.as_dict() for f in self.findings],
                 "known_findings_seen": seen_known,
+                "analysis_errors": self.analysis_errors,
                 "root": self.root,
                 "checker_cmd": f"./check {self.prop} --tier {self.tier}",
                 "trusted_base": ["CPython ast", "struct format semantics", "this checker's rule tables (sa/props)"],
